@@ -83,6 +83,9 @@ func C01(run *ev.Run, tier string) map[string]interface{} {
 	// keys that are prefixes of one another and straddle the internal separator in sort order
 	hKeys := []val.Item{hKey("k1"), hKey("k10")}
 	hrKeys := []val.Item{hrKey("a", "x"), hrKey("a", "x-")}
+	// composite keys that an incomplete escaping of the separator would merge (hash ending in the
+	// escape character, dot in the range / dot in the hash)
+	escKeys := []val.Item{hrKey("c\\", "x.y"), hrKey("c.x", "y")}
 	if thorough {
 		hKeys = append(hKeys, hKey("k-"))
 		hrKeys = append(hrKeys, hrKey("a-", "x"))
@@ -93,6 +96,7 @@ func C01(run *ev.Run, tier string) map[string]interface{} {
 		// number keys that are neighbours beyond float64's 53 bits (64-bit ids): distinct keys, distinct items
 		{"HR(S,N)", drv.TableCfg{Hash: "h", HashT: "S", Range: "r", RangeT: "N", Billing: "PAY_PER_REQUEST"},
 			[]val.Item{{"h": val.S("a"), "r": val.N("1234567890123456789")}, {"h": val.S("a"), "r": val.N("1234567890123456788")}}},
+		{"HR(escape)", drv.TableCfg{Hash: "h", HashT: "S", Range: "r", RangeT: "S", Billing: "PAY_PER_REQUEST"}, escKeys},
 	}
 	total, per := exploreBoth(run, func(newImpl func() drv.Driver, dn string) []mc.Sys {
 		var out []mc.Sys
@@ -107,7 +111,7 @@ func C01(run *ev.Run, tier string) map[string]interface{} {
 				Name:      "C01/" + sc.name,
 				NewImpl:   newImpl,
 				Init:      []drv.Op{{K: drv.KCreate, Table: "tab", Cfg: &sc.cfg}},
-				Alphabet:  c01Alphabet(sc.keys, thorough, !thorough && sc.name == "HR(S,N)"),
+				Alphabet:  c01Alphabet(sc.keys, thorough, !thorough && (sc.name == "HR(S,N)" || sc.name == "HR(escape)")),
 				Observe:   func(m *model.Model) []drv.Op { return ObserveOps(m, u) },
 				SigOf:     mc.DefaultSig("C01"),
 				MaxStates: maxStates,
@@ -118,7 +122,7 @@ func C01(run *ev.Run, tier string) map[string]interface{} {
 	})
 	cov := total.Coverage()
 	cov["per_system"] = per
-	cov["alphabet"] = "Get, Put(full|shrinking|bare|nested values), Del(ALL_OLD), Upd(SET a | SET b = N 7 | SET b = S 7 | ADD c (c<2) | REMOVE a) and rejected writes (update whose operand is absent, false conditions on Put/Upd/Del; thorough: a syntax error) on every key; schemas H(h:S), HR(h:S,r:S) and HR(h:S,r:N) with number keys that are neighbours beyond 2^53; both SDK adapters"
+	cov["alphabet"] = "Get, Put(full|shrinking|bare|nested values), Del(ALL_OLD), Upd(SET a | SET b = N 7 | SET b = S 7 | ADD c (c<2) | REMOVE a) and rejected writes (update whose operand is absent, false conditions on Put/Upd/Del; thorough: a syntax error) on every key; schemas H(h:S), HR(h:S,r:S), HR(h:S,r:N) with number keys that are neighbours beyond 2^53 and HR(h:S,r:S) with a hash key ending in a backslash next to keys containing dots (the last two with one operation of every kind in the quick tier); both SDK adapters"
 	cov["oracle"] = "reference map key->item in lock-step; after every transition: DescribeTable, GetItem of every key, Scan, Query of every partition in both directions"
 	return cov
 }
